@@ -118,7 +118,7 @@ pub fn judge_program(prog: &Prog, ctx: &mut Ctx, cli_sample: bool, fault: Option
 /// real binary) against the reference semantics. Ok(None): the case was excluded.
 pub fn compare_with_reference(prog: &Prog, ctx: &mut Ctx, cli_sample: bool, fault: Option<&str>, scratch_tag: &str) -> Result<Option<refsem::RunResult>, Violation> {
     ctx.eval();
-    let r = refsem::run(prog, refsem::DEFAULT_FUEL);
+    let r = refsem::run(prog, ctx.ref_fuel.unwrap_or(refsem::DEFAULT_FUEL));
     if r.outcome == Outcome::Fuel {
         ctx.exclude("reference-fuel");
         return Ok(None);
@@ -264,6 +264,24 @@ impl Property for C01 {
             if let Err(mut v) = judge_program(&prog, ctx, true, None) {
                 v.detail = format!("[scale program {}] {}", name, v.detail);
                 out.push(v);
+            }
+        }
+        // the long ones: more than 65535 instructions, loop iterations, heap objects, call depth
+        for (i, (name, prog)) in crate::gen::scale::long_programs().into_iter().enumerate() {
+            if !ctx.shard_mine(i + 9) {
+                continue;
+            }
+            ctx.label("long-scale-program");
+            ctx.ref_fuel = Some(20_000_000);
+            let r = compare_with_reference(&prog, ctx, true, None, "C01");
+            ctx.ref_fuel = None;
+            match r {
+                Ok(Some(_)) => ctx.label(&format!("long-scale-program-compared:{}", name)),
+                Ok(None) => ctx.label(&format!("long-scale-program-NOT-compared:{}", name)),
+                Err(mut v) => {
+                    v.detail = format!("[long scale program {}] {}", name, v.detail);
+                    out.push(v);
+                }
             }
         }
         out
